@@ -288,6 +288,13 @@ let handle_op (h : hist) (line : string) =
        if impl_ok then report_spec ~prop:"C19" ~pred:"impossible_size_refused" ~detail:ires
        else if impl_panic && mi.fallible then report_spec ~prop:"C19" ~pred:"impossible_size_is_an_error_not_a_panic" ~detail:ires
      | _ -> ());
+    (* C07, second clause: a request (allocation, grow, realloc) that fits in the space left in the
+       current chunk succeeds whatever the limit: the model serves it without a request to the global
+       allocator, the implementation (which made no request either) refuses it, and a limit is set *)
+    if synced_at_start && (kind = "alloc" || kind = "grow" || kind = "realloc" || kind = "shrink")
+       && (match outp.o_res with ROk _ -> true | _ -> false) && outp.o_reqs = [] && o.reqs = []
+       && (not impl_ok) && b0.limit <> None then
+      report_spec ~prop:"C07" ~pred:"fitting_request_succeeds_whatever_the_limit" ~detail:ires;
     (* C11: after a failed initialiser that allocated nothing, the same layout is served
        from the space that was reserved for it: no request to the global allocator *)
     if kind = "alloc" && List.mem "probe_c11" args && (o.reqs <> [] || not impl_ok) then
